@@ -84,3 +84,10 @@ def shrink(c):
     for k, v in (("quirks", 0), ("layout", [2]), ("olen", 0), ("ttl", 64), ("ws", 0), ("eol", 0), ("pay", False), ("syn_mss", 0), ("ts1", 0)):
         if p[k] != v:
             yield dict(c, pkt=dict(p, **{k: v}))
+
+
+COQ_CHECKER = "check_wm"
+
+
+def coq_case(c, mr):
+    return "(%s, %s)" % (G.coq_pkt(c["pkt"]), G.coq_wm(mr)) if isinstance(mr, list) else None
